@@ -43,3 +43,4 @@ void __vf_mutex_lock(void* m) { __CPROVER_assert(lock_depth == 0, "mutex locked 
 void __vf_mutex_unlock(void* m) { __CPROVER_assert(lock_depth == 1, "mutex unlocked while not held"); lock_depth--; }
 void __vf_register_alloc(const void* p) {}
 void __vf_access(const void* p, int w) {}
+void __vf_lib_write(const void* p) {}
